@@ -954,6 +954,10 @@ func ToEntry(n Node) (e *Entry) {
 			if a := fv.Interface().([]*Deviate); a != nil {
 				for _, d := range a {
 					de := ToEntry(d)
+					// Errors found in the deviate statement (an
+					// unresolvable replacement type, a bad element
+					// bound) belong to the deviation.
+					e.importErrors(de)
 
 					dt, ok := toDeviation[d.Statement().Argument]
 					if !ok {
